@@ -29,7 +29,24 @@ where
     F: Fn(f64) -> f64,
 {
     let multiplier = 10_f64.powf(precision as f64);
-    fun(num * multiplier) / multiplier
+
+    // `10^precision` overflows to infinity above 308 and underflows to zero below -323, and the
+    // scaled number can overflow as well. A finite number has no digits at such positions, so it
+    // already is its own rounding there; `inf * 0`, `x / inf` and the like would instead produce
+    // NaN, zero or infinity.
+    let mut scaled = num * multiplier;
+    if !num.is_finite() || !multiplier.is_finite() || multiplier == 0.0 || !scaled.is_finite() {
+        return num;
+    }
+
+    // A non-zero number whose scaled value underflows to zero must still round away from zero
+    // for `ceil` (positive) and `floor` (negative).
+    if scaled == 0.0 && num != 0.0 {
+        scaled = f64::MIN_POSITIVE.copysign(num);
+    }
+
+    let rounded = fun(scaled) / multiplier;
+    if rounded.is_finite() { rounded } else { num }
 }
 
 #[derive(Debug, Clone)]
